@@ -12,116 +12,781 @@ open PsVerif.Model PsVerif.Model.Refill
 
 /-! ### laws of the reader -/
 
+theorem read_nil (r : Rd) (k : Nat) (h : r.chunks = []) : r.read k = ([], some r.fin, r) := by
+  unfold Rd.read; rw [h]
+
+theorem read_fit (r : Rd) (k : Nat) (c : Chunk) (rest : List Chunk) (h : r.chunks = c :: rest)
+    (hk : c.data.length ≤ k) : r.read k = (c.data, c.err, { r with chunks := rest }) := by
+  unfold Rd.read; rw [h]; simp only [hk, if_true]
+
+theorem read_split (r : Rd) (k : Nat) (c : Chunk) (rest : List Chunk) (h : r.chunks = c :: rest)
+    (hk : ¬ c.data.length ≤ k) :
+    r.read k = (c.data.take k, none, { r with chunks := { c with data := c.data.drop k } :: rest }) := by
+  unfold Rd.read; rw [h]; simp only [hk, if_false]
+
 theorem read_len (r : Rd) (k : Nat) : (r.read k).1.length ≤ k := by
-  unfold Rd.read
-  split
-  · simp
-  · split
-    · assumption
-    · simp; omega
+  cases hcs : r.chunks with
+  | nil => rw [read_nil r k hcs]; simp
+  | cons c rest =>
+    by_cases hk : c.data.length ≤ k
+    · rw [read_fit r k c rest hcs hk]; exact hk
+    · rw [read_split r k c rest hcs hk]; simp; omega
 
 theorem read_fin (r : Rd) (k : Nat) : (r.read k).2.2.fin = r.fin := by
-  unfold Rd.read
-  split
-  · rfl
-  · split <;> rfl
+  cases hcs : r.chunks with
+  | nil => rw [read_nil r k hcs]
+  | cons c rest =>
+    by_cases hk : c.data.length ≤ k
+    · rw [read_fit r k c rest hcs hk]
+    · rw [read_split r k c rest hcs hk]
 
 /-- a call returning nil: what it returns is the beginning of what the reader delivers -/
 theorem read_ok (r : Rd) (k : Nat) (h : (r.read k).2.1 = none) :
     r.delivered = ((r.read k).1 ++ (r.read k).2.2.delivered.1, (r.read k).2.2.delivered.2) := by
-  unfold Rd.read at h ⊢
   unfold Rd.delivered
-  split at h
-  · simp at h
-  · rename_i c rest hc
-    rw [hc]
-    split at h
-    · rename_i hk
-      simp only [hk, if_true]
+  cases hcs : r.chunks with
+  | nil => rw [read_nil r k hcs] at h; simp at h
+  | cons c rest =>
+    by_cases hk : c.data.length ≤ k
+    · rw [read_fit r k c rest hcs hk] at h ⊢
       simp only at h
       simp [deliveredL, h]
-    · rename_i hk
-      simp only [hk, if_false]
-      cases he : c.err <;> simp [deliveredL, he]
+    · rw [read_split r k c rest hcs hk]
+      cases he : c.err <;> simp [deliveredL, he, ← List.append_assoc]
 
 /-- a call returning an error: the bytes coming with it are the last ones -/
 theorem read_err (r : Rd) (k : Nat) (e : RdErr) (h : (r.read k).2.1 = some e) :
     r.delivered = ((r.read k).1, e) := by
-  unfold Rd.read at h ⊢
   unfold Rd.delivered
-  split at h
-  · rename_i hc
-    rw [hc]
+  cases hcs : r.chunks with
+  | nil =>
+    rw [read_nil r k hcs] at h ⊢
     simp at h
     simp [deliveredL, h]
-  · rename_i c rest hc
-    rw [hc]
-    split at h
-    · rename_i hk
-      simp only [hk, if_true]
+  | cons c rest =>
+    by_cases hk : c.data.length ≤ k
+    · rw [read_fit r k c rest hcs hk] at h ⊢
       simp only at h
       simp [deliveredL, h]
-    · simp at h
+    · rw [read_split r k c rest hcs hk] at h; simp at h
 
 theorem read_chunks_le (r : Rd) (k : Nat) : (r.read k).2.2.chunks.length ≤ r.chunks.length := by
-  unfold Rd.read
-  split
-  · omega
-  · rename_i c rest hc
-    rw [hc]
-    split <;> simp
+  cases hcs : r.chunks with
+  | nil => rw [read_nil r k hcs]; simp [hcs]
+  | cons c rest =>
+    by_cases hk : c.data.length ≤ k
+    · rw [read_fit r k c rest hcs hk]; simp
+    · rw [read_split r k c rest hcs hk]; simp
 
 /-- a zero-progress answer uses up a chunk -/
-theorem read_chunks_lt (r : Rd) (k : Nat) (hk : 0 < k) (h0 : (r.read k).1 = [])
+theorem read_chunks_lt (r : Rd) (k : Nat) (hk0 : 0 < k) (h0 : (r.read k).1 = [])
     (h : (r.read k).2.1 = none) : (r.read k).2.2.chunks.length < r.chunks.length := by
-  unfold Rd.read at h h0 ⊢
-  split at h
-  · simp at h
-  · rename_i c rest hc
-    rw [hc]
-    split at h
-    · rename_i hl
-      simp [hl]
-    · rename_i hl
-      simp only [hl, if_false] at h0
+  cases hcs : r.chunks with
+  | nil => rw [read_nil r k hcs] at h; simp at h
+  | cons c rest =>
+    by_cases hk : c.data.length ≤ k
+    · rw [read_fit r k c rest hcs hk]; simp
+    · rw [read_split r k c rest hcs hk] at h0
+      simp only at h0
       have : (c.data.take k).length = 0 := by rw [h0]; rfl
-      simp at this
+      rw [List.length_take] at this
       omega
 
-theorem read_clean_ok (r : Rd) (k : Nat) (hc : r.clean = true) (h : (r.read k).2.1 = none) :
-    (r.read k).2.2.clean = true := by
-  unfold Rd.read at h ⊢
-  unfold Rd.clean at hc ⊢
-  split at h
-  · simp at h
-  · rename_i c rest hcs
-    rw [hcs] at hc
-    split at h
-    · rename_i hl
-      simp only [hl, if_true]
-      simp only at h
-      simpa [cleanL, h] using hc
-    · rename_i hl
-      simp only [hl, if_false]
-      cases he : c.err with
-      | none => simpa [cleanL, he] using hc
-      | some e =>
-        simp [cleanL, he] at hc
-        simp [hc] at hl
+/-! ### the buffer -/
 
-theorem read_clean_err (r : Rd) (k : Nat) (e : RdErr) (hc : r.clean = true)
-    (h : (r.read k).2.1 = some e) : (r.read k).1 = [] := by
-  unfold Rd.read at h ⊢
-  unfold Rd.clean at hc
-  split at h
+/-- the indices are in range and the buffer is not empty (`make([]byte, 512)`) -/
+def WF (b : Buf) : Prop := b.pos ≤ b.used ∧ b.used ≤ b.buf.length ∧ 0 < b.buf.length
+
+/-- the unread bytes `buf[pos:used]` -/
+def pending (b : Buf) : List UInt8 := (b.buf.drop b.pos).take (b.used - b.pos)
+
+/-- what the reader will still deliver: nothing after its first error -/
+def stream (b : Buf) : List UInt8 × RdErr :=
+  match b.srcErr with
+  | some e => ([], e)
+  | none => b.rd.delivered
+
+theorem refill_sticky (b : Buf) (e : RdErr) (h : b.srcErr = some e) : refill b = (some e.toErr, b) := by
+  unfold refill; rw [h]
+
+theorem move_length (buf : List UInt8) (pos used : Nat) (h1 : pos ≤ used) (h2 : used ≤ buf.length) :
+    ((buf.drop pos).take (used - pos) ++ buf.drop (used - pos)).length = buf.length := by
+  simp [List.length_take, List.length_drop]; omega
+
+theorem refill_read (b : Buf) (hw : WF b) (h : b.srcErr = none) :
+    refill b =
+      (if (b.rd.read (b.buf.length - (b.used - b.pos))).1.length > 0 then none
+        else (b.rd.read (b.buf.length - (b.used - b.pos))).2.1.map RdErr.toErr,
+       { b with
+          buf := ((b.buf.drop b.pos).take (b.used - b.pos) ++ b.buf.drop (b.used - b.pos)).take (b.used - b.pos)
+            ++ (b.rd.read (b.buf.length - (b.used - b.pos))).1
+            ++ ((b.buf.drop b.pos).take (b.used - b.pos) ++ b.buf.drop (b.used - b.pos)).drop
+                ((b.used - b.pos) + (b.rd.read (b.buf.length - (b.used - b.pos))).1.length),
+          pos := 0,
+          used := (b.used - b.pos) + (b.rd.read (b.buf.length - (b.used - b.pos))).1.length,
+          srcErr := (b.rd.read (b.buf.length - (b.used - b.pos))).2.1,
+          rd := (b.rd.read (b.buf.length - (b.used - b.pos))).2.2 }) := by
+  obtain ⟨h1, h2, _⟩ := hw
+  unfold refill
+  rw [h]
+  have hc : ¬ (b.pos > b.used ∨ b.used > b.buf.length) := by omega
+  simp only [hc, if_false]
+  rw [move_length b.buf b.pos b.used h1 h2]
+
+/-- the answer of the reader to the `Read` issued by `refill` -/
+def rr (b : Buf) : List UInt8 × Option RdErr × Rd := b.rd.read (b.buf.length - (b.used - b.pos))
+
+theorem list_fill {α : Type} (P Y d X : List α) (m : Nat) (hP : P.length = m) :
+    (((P ++ Y).take m ++ d ++ X).drop 0).take (m + d.length - 0) = P ++ d := by
+  subst hP
+  simp
+  rw [← List.append_assoc]
+  exact List.take_left' (by simp)
+
+theorem pending_len (b : Buf) (hw : WF b) : (pending b).length = b.used - b.pos := by
+  unfold pending
+  obtain ⟨h1, h2, _⟩ := hw
+  simp [List.length_take, List.length_drop]; omega
+
+/-- `refill` with no error pending: the unread bytes are kept (moved to the front), the bytes
+read are appended, the indices stay in range, the capacity is unchanged -/
+theorem refill_spec (b : Buf) (hw : WF b) (h : b.srcErr = none) :
+    WF (refill b).2 ∧ (refill b).2.buf.length = b.buf.length
+    ∧ pending (refill b).2 = pending b ++ (rr b).1
+    ∧ (refill b).2.srcErr = (rr b).2.1 ∧ (refill b).2.rd = (rr b).2.2
+    ∧ (refill b).2.pos = 0 ∧ (refill b).2.used = (b.used - b.pos) + (rr b).1.length
+    ∧ (refill b).1 = (if (rr b).1.length > 0 then none else (rr b).2.1.map RdErr.toErr)
+    ∧ (refill b).2.peek = b.peek ∧ (refill b).2.regurgitate = b.regurgitate ∧ (refill b).2.err = b.err := by
+  rw [refill_read b hw h]
+  have hl := read_len b.rd (b.buf.length - (b.used - b.pos))
+  have hpl := pending_len b hw
+  obtain ⟨h1, h2, h3⟩ := hw
+  have hml := move_length b.buf b.pos b.used h1 h2
+  unfold rr
+  generalize b.rd.read (b.buf.length - (b.used - b.pos)) = r at hl ⊢
+  obtain ⟨d, e, rd'⟩ := r
+  simp only at hl
+  have hlen : (List.take (b.used - b.pos) (List.take (b.used - b.pos) (List.drop b.pos b.buf) ++ List.drop (b.used - b.pos) b.buf) ++ d ++
+          List.drop (b.used - b.pos + d.length)
+            (List.take (b.used - b.pos) (List.drop b.pos b.buf) ++ List.drop (b.used - b.pos) b.buf)).length = b.buf.length := by
+    rw [List.length_append, List.length_append, List.length_take, List.length_drop, hml]
+    omega
+  refine ⟨⟨?_, ?_, ?_⟩, hlen, ?_, rfl, rfl, rfl, rfl, rfl, rfl, rfl, rfl⟩
+  · simp
+  · simp only []; rw [hlen]; omega
+  · simp only []; rw [hlen]; exact h3
+  · unfold pending
+    simp only []
+    exact list_fill _ _ _ _ _ hpl
+
+/-- `refill` does not change what is still to come: unread bytes followed by the rest of the
+reader's stream, and the final error -/
+theorem refill_stream (b : Buf) (hw : WF b) (h : b.srcErr = none) :
+    pending (refill b).2 ++ (stream (refill b).2).1 = pending b ++ (stream b).1
+    ∧ (stream (refill b).2).2 = (stream b).2 := by
+  obtain ⟨_, _, hp, he, hr, _⟩ := refill_spec b hw h
+  unfold stream
+  rw [hp, he, hr, h]
+  unfold rr
+  cases hx : (b.rd.read (b.buf.length - (b.used - b.pos))).2.1 with
+  | none =>
+    simp only []
+    rw [read_ok b.rd _ hx]
+    simp
+  | some x =>
+    simp only []
+    rw [read_err b.rd _ x hx]
+    simp
+
+/-- `b'` is a later state of `b` with the same future -/
+structure Later (b b' : Buf) : Prop where
+  wf : WF b'
+  cap : b'.buf.length = b.buf.length
+  src : pending b' ++ (stream b').1 = pending b ++ (stream b).1
+  fin : (stream b').2 = (stream b).2
+  peek : b'.peek = b.peek
+  reg : b'.regurgitate = b.regurgitate
+
+theorem Later.refl (b : Buf) (hw : WF b) : Later b b := ⟨hw, rfl, rfl, rfl, rfl, rfl⟩
+
+theorem Later.trans {a b c : Buf} (h1 : Later a b) (h2 : Later b c) : Later a c :=
+  ⟨h2.wf, h2.cap.trans h1.cap, h2.src.trans h1.src, h2.fin.trans h1.fin, h2.peek.trans h1.peek,
+    h2.reg.trans h1.reg⟩
+
+theorem fillLoop_succ (fuel : Nat) (b : Buf) :
+    fillLoop (fuel + 1) b =
+      if b.pos ≥ b.used then
+        (match (refill b).1 with
+         | some e => (some e, { (refill b).2 with err := some e })
+         | none => fillLoop fuel (refill b).2)
+      else (none, b) := by
+  simp only [fillLoop]
+  split
+  · generalize refill b = r
+    obtain ⟨r1, r2⟩ := r
+    cases r1 <;> rfl
   · rfl
-  · rename_i c rest hcs
-    rw [hcs] at hc
-    split at h
-    · rename_i hl
-      simp only [hl, if_true]
+
+/-- the outcome of the refill loop -/
+def FillOut (b : Buf) (r : Option Err × Buf) : Prop :=
+  (r.1 = none ∧ r.2.pos < r.2.used ∧ r.2.err = b.err)
+  ∨ (∃ x : RdErr, r.1 = some x.toErr ∧ r.2.err = some x.toErr ∧ r.2.srcErr = some x ∧ pending r.2 = [])
+
+/-- the refill loop: never runs out of fuel, never panics, keeps the future, and ends either
+with an unread byte in the buffer or with the reader's error (then also stored in `err`) -/
+theorem fillLoop_spec (fuel : Nat) (b : Buf) (hw : WF b) (hf : b.rd.chunks.length + 2 ≤ fuel) :
+    Later b (fillLoop fuel b).2 ∧ FillOut b (fillLoop fuel b) := by
+  induction fuel generalizing b with
+  | zero => omega
+  | succ fuel ih =>
+    rw [fillLoop_succ]
+    by_cases hp : b.pos ≥ b.used
+    · simp only [hp, if_true]
+      have hpu : b.used - b.pos = 0 := by omega
+      cases hs : b.srcErr with
+      | some e =>
+        rw [refill_sticky b e hs]
+        simp only []
+        refine ⟨⟨hw, rfl, ?_, ?_, rfl, rfl⟩, Or.inr ⟨e, rfl, rfl, hs, ?_⟩⟩
+        · rfl
+        · rfl
+        · show pending b = []
+          have := pending_len b hw
+          rw [hpu] at this
+          exact List.eq_nil_of_length_eq_zero this
+      | none =>
+        obtain ⟨hw', hcap, hpe, hse, hrd, hpos, hused, hret, hpk, hrg, herr⟩ := refill_spec b hw hs
+        obtain ⟨hsrc, hfin⟩ := refill_stream b hw hs
+        have hl : Later b (refill b).2 := ⟨hw', hcap, hsrc, hfin, hpk, hrg⟩
+        by_cases hd : (rr b).1.length > 0
+        · -- progress: the loop ends
+          simp only [hd, if_true] at hret
+          rw [hret]
+          simp only []
+          have hlt : (refill b).2.pos < (refill b).2.used := by rw [hpos, hused]; omega
+          obtain ⟨f', rfl⟩ : ∃ f', fuel = f' + 1 := ⟨fuel - 1, by omega⟩
+          rw [fillLoop_succ]
+          have : ¬ (refill b).2.pos ≥ (refill b).2.used := by omega
+          simp only [this, if_false]
+          exact ⟨hl, Or.inl ⟨rfl, hlt, herr⟩⟩
+        · simp only [hd, if_false] at hret
+          have hd0 : (rr b).1 = [] := List.eq_nil_of_length_eq_zero (by omega)
+          cases he : (rr b).2.1 with
+          | none =>
+            rw [he] at hret
+            simp only [Option.map] at hret
+            rw [hret]
+            simp only []
+            have hk : 0 < b.buf.length - (b.used - b.pos) := by rw [hpu]; have := hw.2.2; omega
+            have hlt := read_chunks_lt b.rd _ hk hd0 he
+            have hf' : (refill b).2.rd.chunks.length + 2 ≤ fuel := by
+              rw [hrd]; unfold rr; omega
+            obtain ⟨l2, o2⟩ := ih (refill b).2 hw' hf'
+            refine ⟨hl.trans l2, ?_⟩
+            rcases o2 with ⟨a1, a2, a3⟩ | ⟨x, a1, a2, a3, a4⟩
+            · exact Or.inl ⟨a1, a2, a3.trans herr⟩
+            · exact Or.inr ⟨x, a1, a2, a3, a4⟩
+          | some x =>
+            rw [he] at hret
+            simp only [Option.map] at hret
+            rw [hret]
+            simp only []
+            refine ⟨⟨hw', hcap, hsrc, hfin, hpk, hrg⟩, Or.inr ⟨x, rfl, rfl, ?_, ?_⟩⟩
+            · show (refill b).2.srcErr = some x
+              rw [hse, he]
+            · show pending (refill b).2 = []
+              rw [hpe, hd0]
+              have := pending_len b hw
+              rw [hpu] at this
+              simp [List.eq_nil_of_length_eq_zero this]
+    · simp only [hp, if_false]
+      exact ⟨Later.refl b hw, Or.inl ⟨rfl, by show b.pos < b.used; omega, rfl⟩⟩
+
+/-- Whenever the loop of `readByteRaw` calls `refill` the buffer is empty, so the reader is
+offered the whole buffer: `Read` is never called with an empty slice -/
+theorem fillLoop_offers_cap (b : Buf) (hw : WF b) (hp : b.pos ≥ b.used) :
+    rr b = b.rd.read b.buf.length ∧ 0 < b.buf.length := by
+  unfold rr
+  have : b.used - b.pos = 0 := by omega
+  rw [this]
+  exact ⟨rfl, hw.2.2⟩
+
+/-! ### the abstract `readByteRaw`, case by case -/
+
+/-- the error the abstract scanner produces at the end of `src` -/
+def faultErr (f : Option String) : Err := match f with | none => .eof | some t => .io t
+
+theorem faultErr_toFault (x : RdErr) : faultErr x.toFault = x.toErr := by cases x <;> rfl
+
+theorem abs_reg (a : Scanner) (x : UInt8) (rest : List UInt8) (h1 : a.regurgitate = true)
+    (h2 : a.peek = x :: rest) : Scan.readByteRaw a = (.ok x, { a with peek := rest }) := by
+  unfold Scan.readByteRaw
+  simp [h1, h2]
+
+theorem abs_cons (a : Scanner) (x : UInt8) (rest : List UInt8)
+    (hc : (a.regurgitate && !a.peek.isEmpty) = false) (hs : a.src = x :: rest) :
+    Scan.readByteRaw a = (.ok x, { a with src := rest }) := by
+  unfold Scan.readByteRaw
+  simp only [hc, hs]
+  cases a.err <;> simp
+
+theorem abs_nil_some (a : Scanner) (e : Err) (hc : (a.regurgitate && !a.peek.isEmpty) = false)
+    (hs : a.src = []) (he : a.err = some e) : Scan.readByteRaw a = (.error e, a) := by
+  unfold Scan.readByteRaw
+  simp [hc, hs, he]
+
+theorem abs_nil_none (a : Scanner) (hc : (a.regurgitate && !a.peek.isEmpty) = false)
+    (hs : a.src = []) (he : a.err = none) :
+    Scan.readByteRaw a = (.error (faultErr a.fault), { a with err := some (faultErr a.fault) }) := by
+  unfold Scan.readByteRaw faultErr
+  simp only [hc, he, Bool.false_eq_true, if_false]
+  rw [hs]
+  rfl
+
+/-! ### the simulation -/
+
+theorem pending_cons (b : Buf) (h1 : b.pos < b.used) (h2 : b.used ≤ b.buf.length) :
+    ∃ x, b.buf[b.pos]? = some x ∧ pending b = x :: pending { b with pos := b.pos + 1 } := by
+  have hlt : b.pos < b.buf.length := by omega
+  refine ⟨b.buf[b.pos], List.getElem?_eq_getElem hlt, ?_⟩
+  unfold pending
+  simp only []
+  rw [List.drop_eq_getElem_cons hlt]
+  have : b.used - b.pos = (b.used - (b.pos + 1)) + 1 := by omega
+  rw [this, List.take_succ_cons]
+
+/-- The simulation relation between the buffered scanner (with the reader's remaining
+schedule inside) and the abstract scanner: the abstract `src` is the unread part of the
+buffer followed by everything the reader will still deliver, `fault` is the error it will
+end with, and `peek`, `regurgitate` and the visible `err` are equal. -/
+structure R (b : Buf) (a : Scanner) : Prop where
+  wf : WF b
+  src : a.src = pending b ++ (stream b).1
+  fault : a.fault = (stream b).2.toFault
+  peek : a.peek = b.peek
+  reg : a.regurgitate = b.regurgitate
+  err : a.err = b.err
+  errInv : ∀ e, a.err = some e → e = (stream b).2.toErr
+
+/-- `readByteRaw` on both sides: same return value, related states -/
+theorem read_sim (b : Buf) (a : Scanner) (h : R b a) :
+    (readByteRaw b).1 = (Scan.readByteRaw a).1 ∧ R (readByteRaw b).2 (Scan.readByteRaw a).2 := by
+  by_cases hreg : (b.regurgitate && !b.peek.isEmpty) = true
+  · cases hpk : b.peek with
+    | nil => simp [hpk] at hreg
+    | cons x rest =>
+      have hr : b.regurgitate = true := by simp at hreg; exact hreg.1
+      rw [abs_reg a x rest (h.reg.trans hr) (h.peek.trans hpk)]
+      unfold readByteRaw
+      simp only [hreg, if_true]
+      simp only [hpk]
+      exact ⟨trivial, ⟨h.wf, h.src, h.fault, rfl, h.reg, h.err, h.errInv⟩⟩
+  · have hreg' : (b.regurgitate && !b.peek.isEmpty) = false := by simpa using hreg
+    have hca : (a.regurgitate && !a.peek.isEmpty) = false := by rw [h.reg, h.peek]; exact hreg'
+    unfold readByteRaw
+    simp only [hreg', Bool.false_eq_true, if_false]
+    obtain ⟨hl, ho⟩ := fillLoop_spec _ b h.wf (Nat.le_refl _)
+    generalize fillLoop (b.rd.chunks.length + 2) b = r at hl ho
+    obtain ⟨r1, b'⟩ := r
+    simp only [FillOut] at hl ho
+    rcases ho with ⟨h1, h2, h3⟩ | ⟨x, h1, h2, h3, h4⟩
+    · subst h1
+      simp only []
+      obtain ⟨y, hy, hpc⟩ := pending_cons b' h2 hl.wf.2.1
+      rw [hy]
+      simp only []
+      have hsrc : a.src = y :: (pending { b' with pos := b'.pos + 1 } ++ (stream b').1) := by
+        rw [h.src, ← hl.src, hpc]; rfl
+      rw [abs_cons a y _ hca hsrc]
+      refine ⟨rfl, ⟨?_, rfl, ?_, ?_, ?_, ?_, ?_⟩⟩
+      · exact ⟨by show b'.pos + 1 ≤ b'.used; omega, hl.wf.2.1, hl.wf.2.2⟩
+      · show a.fault = (stream b').2.toFault
+        rw [h.fault, hl.fin]
+      · exact h.peek.trans hl.peek.symm
+      · exact h.reg.trans hl.reg.symm
+      · exact h.err.trans h3.symm
+      · intro e he
+        show e = (stream b').2.toErr
+        rw [hl.fin]; exact h.errInv e he
+    · subst h1
+      simp only []
+      have hst : stream b' = ([], x) := by unfold stream; rw [h3]
+      have hsrc : a.src = [] := by
+        rw [h.src, ← hl.src, h4, hst]; rfl
+      have hfin : (stream b).2 = x := by rw [← hl.fin, hst]
+      cases ha : a.err with
+      | none =>
+        have hfe : faultErr a.fault = x.toErr := by rw [h.fault, hfin, faultErr_toFault]
+        rw [abs_nil_none a hca hsrc ha, hfe]
+        refine ⟨rfl, ⟨hl.wf, ?_, ?_, ?_, ?_, ?_, ?_⟩⟩
+        · show a.src = _
+          rw [hsrc, h4, hst]; rfl
+        · show a.fault = _
+          rw [h.fault, hl.fin]
+        · exact h.peek.trans hl.peek.symm
+        · exact h.reg.trans hl.reg.symm
+        · exact h2.symm
+        · intro e he
+          simp only [Option.some.injEq] at he
+          rw [hst, ← he]
+      | some e =>
+        rw [abs_nil_some a e hca hsrc ha]
+        have hee : e = x.toErr := by rw [← hfin]; exact h.errInv e ha
+        refine ⟨by rw [hee], ⟨hl.wf, ?_, ?_, ?_, ?_, ?_, ?_⟩⟩
+        · rw [hsrc, h4, hst]; rfl
+        · rw [h.fault, hl.fin]
+        · exact h.peek.trans hl.peek.symm
+        · exact h.reg.trans hl.reg.symm
+        · rw [ha, h2, hee]
+        · intro e' he'
+          rw [hl.fin]; exact h.errInv e' he'
+
+/-- every operation of the upper layers: same observation, related states -/
+theorem step_sim (op : Op) (b : Buf) (a : Scanner) (h : R b a) :
+    (stepB op b).1 = (stepA op a).1 ∧ R (stepB op b).2 (stepA op a).2 := by
+  cases op with
+  | read =>
+    obtain ⟨h1, h2⟩ := read_sim b a h
+    simp only [stepB, stepA]
+    exact ⟨by rw [h1], h2⟩
+  | getErr =>
+    simp only [stepB, stepA]
+    exact ⟨by rw [h.err], h⟩
+  | setRegurgitate v =>
+    simp only [stepB, stepA]
+    exact ⟨trivial, ⟨h.wf, h.src, h.fault, h.peek, rfl, h.err, h.errInv⟩⟩
+  | setPeek p =>
+    simp only [stepB, stepA]
+    exact ⟨trivial, ⟨h.wf, h.src, h.fault, rfl, h.reg, h.err, h.errInv⟩⟩
+
+/-- any sequence of operations observes the same on both sides -/
+theorem run_sim (ops : List Op) (b : Buf) (a : Scanner) (h : R b a) : runB ops b = runA ops a := by
+  induction ops generalizing b a with
+  | nil => rfl
+  | cons op ops ih =>
+    obtain ⟨h1, h2⟩ := step_sim op b a h
+    simp only [runB, runA]
+    rw [h1, ih _ _ h2]
+
+/-- any adaptive client observes the same on both sides -/
+theorem drive_sim (c : Client) (n : Nat) (hist : List Obs) (b : Buf) (a : Scanner) (h : R b a) :
+    driveB c n hist b = driveA c n hist a := by
+  induction n generalizing hist b a with
+  | zero => rfl
+  | succ n ih =>
+    simp only [driveB, driveA]
+    cases c hist with
+    | none => rfl
+    | some op =>
+      obtain ⟨h1, h2⟩ := step_sim op b a h
+      simp only []
+      rw [h1, ih _ _ _ h2]
+
+/-- a fresh scanner over a reader that delivers `bs` and then `e` is related to the abstract
+scanner with `src = bs` and the fault `e` -/
+theorem init_sim (cap : Nat) (hc : 0 < cap) (rd : Rd) (bs : List UInt8) (e : RdErr)
+    (hd : rd.delivered = (bs, e)) : R (newBuf cap rd) (absInit bs e) := by
+  refine ⟨⟨Nat.le_refl _, ?_, ?_⟩, ?_, ?_, rfl, rfl, rfl, ?_⟩
+  · simp [newBuf]
+  · simp [newBuf]; exact hc
+  · show bs = pending (newBuf cap rd) ++ (stream (newBuf cap rd)).1
+    have : stream (newBuf cap rd) = rd.delivered := rfl
+    rw [this, hd]
+    simp [pending, newBuf]
+  · show e.toFault = (stream (newBuf cap rd)).2.toFault
+    have : stream (newBuf cap rd) = rd.delivered := rfl
+    rw [this, hd]
+  · intro e' he'
+    simp [absInit] at he'
+
+/-- `n` successive `readByteRaw` on the abstract scanner: the bytes of `src`, then the error -/
+theorem runA_reads (n : Nat) (a : Scanner) (hreg : a.regurgitate = false)
+    (herr : ∀ e, a.err = some e → e = faultErr a.fault) :
+    runA (List.replicate n .read) a
+      = (a.src.map Obs.byte ++ List.replicate n (Obs.fail (faultErr a.fault))).take n := by
+  induction n generalizing a with
+  | zero => simp [runA]
+  | succ n ih =>
+    have hc : (a.regurgitate && !a.peek.isEmpty) = false := by simp [hreg]
+    simp only [List.replicate_succ, runA, stepA]
+    cases hs : a.src with
+    | cons x rest =>
+      rw [abs_cons a x rest hc hs]
+      simp only [obsOf]
+      rw [ih { a with src := rest } hreg herr]
+      simp only [List.map_cons, List.cons_append, List.take_succ_cons]
+      congr 1
+      rw [List.take_append, List.take_append]
+      congr 1
+      simp only [List.length_map]
+      rw [← List.replicate_succ, List.take_replicate, List.take_replicate]
+      congr 1
+      omega
+    | nil =>
+      cases he : a.err with
+      | none =>
+        rw [abs_nil_none a hc hs he]
+        simp only [obsOf]
+        rw [ih { a with err := some (faultErr a.fault) } hreg (by intro e h; simp at h; exact h.symm)]
+        simp [hs]
+      | some e =>
+        rw [abs_nil_some a e hc hs he]
+        simp only [obsOf]
+        rw [ih a hreg herr, herr e he]
+        simp [hs]
+
+/-! ### what `readByteRaw` can return -/
+
+theorem abs_result (a : Scanner) :
+    (∃ y, (Scan.readByteRaw a).1 = .ok y)
+    ∨ ((a.regurgitate && !a.peek.isEmpty) = false ∧ a.src = []
+        ∧ ((a.err = none ∧ (Scan.readByteRaw a).1 = .error (faultErr a.fault))
+           ∨ (∃ e, a.err = some e ∧ (Scan.readByteRaw a).1 = .error e))) := by
+  by_cases hreg : (a.regurgitate && !a.peek.isEmpty) = true
+  · cases hpk : a.peek with
+    | nil => simp [hpk] at hreg
+    | cons x rest =>
+      have hr : a.regurgitate = true := by simp at hreg; exact hreg.1
+      rw [abs_reg a x rest hr hpk]
+      exact Or.inl ⟨x, rfl⟩
+  · have hc : (a.regurgitate && !a.peek.isEmpty) = false := by simpa using hreg
+    cases hs : a.src with
+    | cons x rest => rw [abs_cons a x rest hc hs]; exact Or.inl ⟨x, rfl⟩
+    | nil =>
+      refine Or.inr ⟨hc, rfl, ?_⟩
+      cases he : a.err with
+      | none => rw [abs_nil_none a hc hs he]; exact Or.inl ⟨rfl, rfl⟩
+      | some e => rw [abs_nil_some a e hc hs he]; exact Or.inr ⟨e, rfl, rfl⟩
+
+/-- `readByteRaw` returns a byte or the reader's final error: the index `buf[pos]` is in
+range, the slice in `refill` is valid, the loop ends (no `panic`, no fuel error) -/
+theorem readByteRaw_result (b : Buf) (a : Scanner) (h : R b a) :
+    (∃ y, (readByteRaw b).1 = .ok y) ∨ (readByteRaw b).1 = .error (stream b).2.toErr := by
+  rw [(read_sim b a h).1]
+  rcases abs_result a with ⟨y, hy⟩ | ⟨_, _, ⟨_, h2⟩ | ⟨e, h1, h2⟩⟩
+  · exact Or.inl ⟨y, hy⟩
+  · right; rw [h2, h.fault, faultErr_toFault]
+  · right; rw [h2, h.errInv e h1]
+
+/-- after its first error the reader is never called again -/
+theorem no_read_after_error (b : Buf) (e : RdErr) (h : b.srcErr = some e) : (refill b).2 = b := by
+  rw [refill_sticky b e h]
+
+/-! ### `type1/peekreader.go` -/
+
+/-- a `peekReader` answers every `Read` exactly like the schedule `toRd` -/
+theorem peekRd_read (p : PeekRd) (k : Nat) :
+    p.toRd.read k = ((p.read k).1, (p.read k).2.1, (p.read k).2.2.toRd) := by
+  unfold PeekRd.read PeekRd.toRd
+  by_cases h0 : p.buf.length = 0
+  · simp only [h0, if_true]
+  · simp only [h0, if_false]
+    by_cases hk : k > p.buf.length
+    · simp only [hk, if_true]
+      have hfit : p.buf.length ≤ k := by omega
+      rw [read_fit _ k { data := p.buf } p.r.chunks rfl hfit]
+      simp
+    · simp only [hk, if_false]
+      by_cases hk2 : p.buf.length ≤ k
+      · have : k = p.buf.length := by omega
+        subst this
+        rw [read_fit _ _ { data := p.buf } p.r.chunks rfl (Nat.le_refl _)]
+        simp
+      · rw [read_split _ k { data := p.buf } p.r.chunks rfl hk2]
+        have : ¬ (p.buf.length - k = 0) := by omega
+        simp [this]
+
+/-- successive `Read` calls with the given slice lengths -/
+def Rd.reads : List Nat → Rd → List (List UInt8 × Option RdErr)
+  | [], _ => []
+  | k :: ks, r => ((r.read k).1, (r.read k).2.1) :: Rd.reads ks (r.read k).2.2
+
+def PeekRd.reads : List Nat → PeekRd → List (List UInt8 × Option RdErr)
+  | [], _ => []
+  | k :: ks, p => ((p.read k).1, (p.read k).2.1) :: PeekRd.reads ks (p.read k).2.2
+
+theorem peekRd_reads (ks : List Nat) (p : PeekRd) : PeekRd.reads ks p = Rd.reads ks p.toRd := by
+  induction ks generalizing p with
+  | nil => rfl
+  | cons k ks ih =>
+    simp only [PeekRd.reads, Rd.reads]
+    rw [peekRd_read p k]
+    simp only []
+    rw [ih]
+
+theorem toRd_delivered (p : PeekRd) : p.toRd.delivered = (p.buf ++ p.r.delivered.1, p.r.delivered.2) := by
+  unfold PeekRd.toRd
+  by_cases h0 : p.buf.length = 0
+  · simp only [h0, if_true]
+    rw [List.eq_nil_of_length_eq_zero h0]
+    simp
+  · simp only [h0, if_false]
+    simp [Rd.delivered, deliveredL]
+
+theorem deliveredL_all (rest : List Chunk) (x : RdErr)
+    (h : rest.all (fun c' => c'.data.isEmpty && c'.err == some x) = true) : deliveredL rest x = ([], x) := by
+  cases rest with
+  | nil => rfl
+  | cons c rest =>
+    simp at h
+    obtain ⟨⟨h1, h2⟩, _⟩ := h
+    simp [deliveredL, h1, h2]
+
+theorem sticky_err (r : Rd) (k : Nat) (x : RdErr) (hs : r.sticky = true) (h : (r.read k).2.1 = some x) :
+    (r.read k).2.2.delivered = ([], x) := by
+  unfold Rd.sticky at hs
+  unfold Rd.delivered
+  cases hcs : r.chunks with
+  | nil =>
+    rw [read_nil r k hcs] at h ⊢
+    simp at h
+    simp [hcs, deliveredL, h]
+  | cons c rest =>
+    rw [hcs] at hs
+    by_cases hk : c.data.length ≤ k
+    · rw [read_fit r k c rest hcs hk] at h ⊢
       simp only at h
-      simpa [cleanL, h] using hc
-    · simp at h
+      simp [stickyL, h] at hs
+      simp only []
+      rw [hs.1]
+      exact deliveredL_all rest x (by simpa using hs.2)
+    · rw [read_split r k c rest hcs hk] at h; simp at h
+
+theorem sticky_ok (r : Rd) (k : Nat) (hs : r.sticky = true) (h : (r.read k).2.1 = none) :
+    (r.read k).2.2.sticky = true := by
+  unfold Rd.sticky at hs ⊢
+  cases hcs : r.chunks with
+  | nil => rw [read_nil r k hcs] at h; simp at h
+  | cons c rest =>
+    rw [hcs] at hs
+    by_cases hk : c.data.length ≤ k
+    · rw [read_fit r k c rest hcs hk] at h ⊢
+      simp only at h
+      simpa [stickyL, h] using hs
+    · rw [read_split r k c rest hcs hk]
+      simpa [stickyL] using hs
+
+/-- the outcome of the `io.ReadFull` loop -/
+def FullOut (r : Rd) (need : Nat) (acc : List UInt8) (out : List UInt8 × Option RdErr × Rd) : Prop :=
+  ∃ d : List UInt8, out.1 = acc ++ d ∧ d.length ≤ need ∧
+    ((out.2.1 = none ∧ d.length = need
+        ∧ r.delivered = (d ++ out.2.2.delivered.1, out.2.2.delivered.2)
+        ∧ (r.sticky = true → out.2.2.sticky = true))
+     ∨ (∃ x, out.2.1 = some x ∧ r.delivered = (d, x)
+        ∧ (r.sticky = true → out.2.2.delivered = ([], x))))
+
+theorem readFullLoop_spec (fuel : Nat) (r : Rd) (need : Nat) (acc : List UInt8)
+    (hf : r.chunks.length + need + 1 ≤ fuel) : FullOut r need acc (readFullLoop fuel r need acc) := by
+  induction fuel generalizing r need acc with
+  | zero => omega
+  | succ fuel ih =>
+    simp only [readFullLoop]
+    by_cases hn : need = 0
+    · simp only [hn, if_true]
+      exact ⟨[], by simp, by simp, Or.inl ⟨rfl, rfl, by simp, fun h => h⟩⟩
+    · simp only [hn, if_false]
+      have hlen := read_len r need
+      cases he : (r.read need).2.1 with
+      | some x =>
+        have hd := read_err r need x he
+        have hst := sticky_err r need x
+        generalize r.read need = rr' at he hd hst hlen
+        obtain ⟨d, e, r'⟩ := rr'
+        simp only at he hd hst hlen
+        subst he
+        simp only []
+        exact ⟨d, rfl, hlen, Or.inr ⟨x, rfl, hd, fun h => hst h rfl⟩⟩
+      | none =>
+        have hd := read_ok r need he
+        have hst := sticky_ok r need
+        have hle := read_chunks_le r need
+        have hlt := read_chunks_lt r need (by omega)
+        generalize r.read need = rr' at he hd hst hlen hle hlt
+        obtain ⟨d, e, r'⟩ := rr'
+        simp only at he hd hst hlen hle hlt
+        subst he
+        simp only []
+        have hf' : r'.chunks.length + (need - d.length) + 1 ≤ fuel := by
+          by_cases hd0 : d = []
+          · have := hlt hd0 rfl; omega
+          · have : 0 < d.length := List.length_pos_iff.mpr hd0
+            omega
+        obtain ⟨d2, h1, h2, h3⟩ := ih r' (need - d.length) (acc ++ d) hf'
+        refine ⟨d ++ d2, by rw [h1, List.append_assoc], by simp; omega, ?_⟩
+        rcases h3 with ⟨a1, a2, a3, a4⟩ | ⟨x, a1, a2, a3⟩
+        · refine Or.inl ⟨a1, by simp; omega, ?_, fun h => a4 (hst h rfl)⟩
+          rw [hd, a3]; simp
+        · refine Or.inr ⟨x, a1, ?_, fun h => a3 (hst h rfl)⟩
+          rw [hd, a2]
+
+/-- `peek` succeeded: the returned `peekReader` delivers exactly what the reader would have
+delivered, and `head` is the first `n` bytes of it.  Stickiness (the reader repeats its error)
+is only used when the error arrived during the look-ahead. -/
+theorem peek_ok (r : Rd) (n : Nat) (hs : r.sticky = true) (head : List UInt8) (p : PeekRd)
+    (h : peek r n = .ok (head, p)) :
+    p.toRd.delivered = r.delivered ∧ head = r.delivered.1.take n ∧ p.buf = head := by
+  unfold peek at h
+  obtain ⟨d, h1, h2, h3⟩ := readFullLoop_spec (r.chunks.length + n + 2) r n [] (by omega)
+  generalize readFullLoop (r.chunks.length + n + 2) r n [] = out at h h1 h2 h3
+  obtain ⟨got, e, r'⟩ := out
+  simp only [List.nil_append] at h h1 h2 h3
+  subst h1
+  have key : ∀ (hd : List UInt8) (q : PeekRd), hd = got → q = { buf := got, r := r' } →
+      q.toRd.delivered = r.delivered ∧ hd = r.delivered.1.take n ∧ q.buf = hd := by
+    intro hd q e1 e2
+    subst e1 e2
+    rw [toRd_delivered]
+    simp only []
+    rcases h3 with ⟨_, a2, a3, _⟩ | ⟨x, _, a2, a3⟩
+    · rw [a3]
+      refine ⟨rfl, ?_, trivial⟩
+      simp only []
+      rw [← a2, List.take_left]
+    · rw [a3 hs, a2]
+      refine ⟨by simp, ?_, trivial⟩
+      simp only []
+      rw [List.take_of_length_le h2]
+  by_cases hg : got.length ≥ n
+  · simp only [hg, if_true] at h
+    simp only [Except.ok.injEq, Prod.mk.injEq] at h
+    exact key head p h.1.symm h.2.symm
+  · simp only [hg, if_false] at h
+    cases e with
+    | none =>
+      simp only [Except.ok.injEq, Prod.mk.injEq] at h
+      exact key head p h.1.symm h.2.symm
+    | some x =>
+      cases x with
+      | eof =>
+        simp only [Except.ok.injEq, Prod.mk.injEq] at h
+        exact key head p h.1.symm h.2.symm
+      | fault t => simp at h
+
+/-- `peek` failed: the reader itself fails, with that error, before `n` bytes -/
+theorem peek_error (r : Rd) (n : Nat) (e : RdErr) (h : peek r n = .error e) :
+    r.delivered.2 = e ∧ r.delivered.1.length < n ∧ e ≠ .eof := by
+  unfold peek at h
+  obtain ⟨d, h1, h2, h3⟩ := readFullLoop_spec (r.chunks.length + n + 2) r n [] (by omega)
+  generalize readFullLoop (r.chunks.length + n + 2) r n [] = out at h h1 h2 h3
+  obtain ⟨got, e', r'⟩ := out
+  simp only [List.nil_append] at h h1 h2 h3
+  subst h1
+  by_cases hg : got.length ≥ n
+  · simp [hg] at h
+  · simp only [hg, if_false] at h
+    cases e' with
+    | none => simp at h
+    | some x =>
+      cases x with
+      | eof => simp at h
+      | fault t =>
+        simp only [Except.error.injEq] at h
+        subst h
+        rcases h3 with ⟨a1, _⟩ | ⟨x, a1, a2, _⟩
+        · simp at a1
+        · simp only [Option.some.injEq] at a1
+          subst a1
+          rw [a2]
+          exact ⟨rfl, by simp only []; omega, by simp⟩
 
 end PsVerif.Proofs.Refill
